@@ -689,7 +689,10 @@ func (k *Case) finish() {
 		}
 		c.Wait()
 	}
-	if c.peerGone || c.halfClosed || c.wrFailed {
+	// (a client whose Write has failed closes the socket itself: if it has not, the peer stays silent and the calls
+	// that are stuck show)
+	ignoredWriteError := c.wrFailed && !c.peerGone && c.Conn.FailedWrites() > 0 && !c.Conn.IsClosed()
+	if (c.peerGone || c.halfClosed || c.wrFailed) && !ignoredWriteError {
 		c.Conn.EOF()
 		c.Wait()
 	}
